@@ -336,6 +336,11 @@ def jobs(tier):
     js = [Job(f"migrate[{k}]", job_migrate, paint=k) for k in (RC.QUICK_PAINTS if tier == "quick" else RC.PAINTS)]
     js.append(Job("colr0_layers[reused]", job_colr0, which="colr0"))
     js.append(Job("glyf_components[reused]", job_colr0, which="glyf"))
+    # obligations that discharge the contracts used above (paint.transformed, radial split)
+    from harness import C16, C16_radial
+
+    js.append(Job("contract:transformed", C16.job_transformed))
+    js += [Job("contract:" + j.name, j.fn, **j.params) for j in C16_radial.jobs(tier)]
     return js
 
 
